@@ -27,6 +27,7 @@ type lazyHelper struct {
 	Closure         *ssa.Function
 	Problem         string    // non-empty: H is not of the shape above
 	Inline          bool      // the discipline is written inside H itself (inlineLazyOf)
+	Maker           bool      // H returns the guarded builder: `fooOnce.Do(H(&fooMapping, wordlist.Foo))`
 	ListCall        *ssa.Call // inline form: the call in the closure that yields the word list
 }
 
@@ -34,6 +35,7 @@ type lazyInst struct {
 	Helper           *lazyHelper
 	Site             ssa.CallInstruction
 	Guard, Map, List *ssa.Global
+	MakerCall        ssa.CallInstruction // maker form: the call of the maker whose result Site (the Do) runs
 }
 
 func isOncePtr(t types.Type) bool {
@@ -86,13 +88,18 @@ func (a *Analysis) lazyHelperOf(H *ssa.Function) *lazyHelper {
 			}
 		}
 	}
-	if lh.OnceIdx < 0 || lh.MapIdx < 0 {
-		a.lazy[H] = nil
-		return nil
-	}
 	fail := func(format string, args ...any) *lazyHelper {
 		lh.Problem = fmt.Sprintf(format, args...)
 		return lh
+	}
+	if lh.OnceIdx < 0 && lh.MapIdx >= 0 && returnsPlainFunc(H) {
+		// the maker form: H(&fooMapping, wordlist.Foo) returns the function a guard is to run,
+		//	fooOnce.Do(H(&fooMapping, wordlist.Foo))
+		return a.lazyMakerOf(H, lh, fail)
+	}
+	if lh.OnceIdx < 0 || lh.MapIdx < 0 {
+		a.lazy[H] = nil
+		return nil
 	}
 	once, m := H.Params[lh.OnceIdx], H.Params[lh.MapIdx]
 	// the guard parameter: receiver of exactly one Do, nothing else
@@ -207,6 +214,98 @@ func (a *Analysis) lazyHelperOf(H *ssa.Function) *lazyHelper {
 	}
 	if lh.ListIdx < 0 {
 		return fail("%s does not take the word list as a parameter", fnKey(H))
+	}
+	return lh
+}
+
+// returnsPlainFunc: H's only result is a func().
+func returnsPlainFunc(H *ssa.Function) bool {
+	res := H.Signature.Results()
+	if res.Len() != 1 {
+		return false
+	}
+	sig, ok := res.At(0).Type().Underlying().(*types.Signature)
+	return ok && sig.Params().Len() == 0 && sig.Results().Len() == 0
+}
+
+// lazyMakerOf: H only builds and returns one closure that captures its map-pointer (and list)
+// parameters; the closure has the shape of a guarded builder (lazyClosureShape).
+func (a *Analysis) lazyMakerOf(H *ssa.Function, lh *lazyHelper, fail func(string, ...any) *lazyHelper) *lazyHelper {
+	lh.Maker = true
+	var mc *ssa.MakeClosure
+	cells := map[*ssa.Parameter]*ssa.Alloc{}
+	for _, b := range H.Blocks {
+		for _, in := range b.Instrs {
+			switch x := in.(type) {
+			case *ssa.DebugRef, *ssa.Alloc:
+			case *ssa.Store:
+				p, isP := x.Val.(*ssa.Parameter)
+				al, isA := x.Addr.(*ssa.Alloc)
+				if !isP || !isA || cells[p] != nil {
+					return fail("%s does more than capture its parameters in the function it returns", fnKey(H))
+				}
+				cells[p] = al
+			case *ssa.MakeClosure:
+				if mc != nil {
+					return fail("%s builds more than one closure", fnKey(H))
+				}
+				mc = x
+			case *ssa.Return:
+				if len(x.Results) != 1 || mc == nil || x.Results[0] != ssa.Value(mc) {
+					return fail("%s does not return the closure it builds", fnKey(H))
+				}
+			default:
+				return fail("%s does more than build and return one closure (%T)", fnKey(H), in)
+			}
+		}
+	}
+	if mc == nil {
+		return fail("%s builds no closure", fnKey(H))
+	}
+	lh.Closure, _ = mc.Fn.(*ssa.Function)
+	if lh.Closure == nil {
+		return fail("%s does not return a function literal", fnKey(H))
+	}
+	m := H.Params[lh.MapIdx]
+	mCell := cells[m]
+	if mCell == nil {
+		return fail("%s: the map pointer is not captured by the returned function", fnKey(H))
+	}
+	// each cell is used by the store that fills it and by the closure, nothing else
+	fvOf := map[*ssa.Alloc]*ssa.FreeVar{}
+	for i, bnd := range mc.Bindings {
+		if al, ok := bnd.(*ssa.Alloc); ok && i < len(lh.Closure.FreeVars) {
+			fvOf[al] = lh.Closure.FreeVars[i]
+		}
+	}
+	for _, al := range cells {
+		for _, ref := range *al.Referrers() {
+			switch ref.(type) {
+			case *ssa.Store, *ssa.MakeClosure, *ssa.DebugRef:
+			default:
+				return fail("%s uses a captured parameter other than in the function it returns", fnKey(H))
+			}
+		}
+	}
+	fm := fvOf[mCell]
+	if fm == nil {
+		return fail("%s: the map pointer is not captured by the returned function", fnKey(H))
+	}
+	var fl *ssa.FreeVar
+	if lh.ListIdx >= 0 {
+		if c := cells[H.Params[lh.ListIdx]]; c != nil {
+			fl = fvOf[c]
+		}
+	}
+	if fl == nil {
+		return fail("%s: the word list is not a parameter captured by the returned function", fnKey(H))
+	}
+	listOK := func(v ssa.Value) bool {
+		ld, ok := v.(*ssa.UnOp)
+		return ok && ld.Op == token.MUL && ld.X == ssa.Value(fl)
+	}
+	if msg := a.lazyClosureShape(lh.Closure, fm, listOK, nil); msg != "" {
+		return fail("%s", msg)
 	}
 	return lh
 }
@@ -454,6 +553,36 @@ func (a *Analysis) lazyInstances() map[*ssa.Global][]lazyInst {
 			}
 			args := c.Common().Args
 			if len(args) != len(H.Params) {
+				continue
+			}
+			if lh.Maker {
+				// the result must go to exactly one Do of a package-level guard, nowhere else
+				in := lazyInst{Helper: lh, Site: c}
+				in.Map, _ = args[lh.MapIdx].(*ssa.Global)
+				if lh.ListIdx >= 0 {
+					in.List = loadedGlobal(args[lh.ListIdx])
+				}
+				if v := c.Value(); v != nil && v.Referrers() != nil {
+					var do ssa.CallInstruction
+					n := 0
+					for _, ref := range *v.Referrers() {
+						if _, dbg := ref.(*ssa.DebugRef); dbg {
+							continue
+						}
+						n++
+						if dc, ok := ref.(ssa.CallInstruction); ok && calleeName(dc) == "(*sync.Once).Do" && len(dc.Common().Args) == 2 && dc.Common().Args[1] == v {
+							do = dc
+						}
+					}
+					if n == 1 && do != nil {
+						in.Guard, _ = do.Common().Args[0].(*ssa.Global)
+						in.Site = do // reads of the map must come after this Do
+						in.MakerCall = c
+					}
+				}
+				if in.Map != nil {
+					out[in.Map] = append(out[in.Map], in)
+				}
 				continue
 			}
 			in := lazyInst{Helper: lh, Site: c}
